@@ -371,6 +371,22 @@ func runC15(c *fw.Ctx) {
 		}
 		grocksdb.DropDisk(disk)
 		run.byteMutations(base, r, exhaustive)
+		// well-formed msgpack records {"Nodes": {<key>: true, ...}} whose keys have every length 0..140, hex or not
+		for l := 0; l <= 140; l++ {
+			for _, fill := range []byte{'a', '7', 'g', 'A'} {
+				rec := []byte{0x81, 0xa5, 'N', 'o', 'd', 'e', 's', 0x82}
+				for _, key := range [][]byte{bytes.Repeat([]byte{fill}, l), bytes.Repeat([]byte("ab"), 32)} {
+					if len(key) < 32 {
+						rec = append(rec, 0xa0|byte(len(key)))
+					} else {
+						rec = append(rec, 0xd9, byte(len(key)))
+					}
+					rec = append(rec, key...)
+					rec = append(rec, 0xc3)
+				}
+				run.feed("dead-node record with a key of length 0..140", rec)
+			}
+		}
 		for k := 0; k < 300; k++ {
 			b := make([]byte, r.Intn(60))
 			r.Read(b)
@@ -488,7 +504,7 @@ func init() {
 		Run:          runC15,
 		StallSeconds: 60,
 		Floors: map[string]int64{"inputs": 1000000, "accepted": 20000, "rejected": 500000, "inputs:util.CreateNode": 100000, "inputs:wmpt.DeserializeNode": 100000, "inputs:WeightedMerkleTrie.Deserialize": 100000, "inputs:WeightedMerkleTrie.VerifyBlockProof": 100000, "inputs:PNodeDB.PruneBelowVersion(dead-node record)": 30000,
-			"mutator:truncation": 50000, "mutator:separator removed": 5000, "mutator:first byte 0..255": 100000, "mutator:cbor head inflated": 10000, "mutator:branch child blob of length 0..80": 1000, "mutator:branch array of 0..20 children": 1000, "mutator:nil element": 1000},
+			"mutator:truncation": 50000, "mutator:separator removed": 5000, "mutator:first byte 0..255": 100000, "mutator:cbor head inflated": 10000, "mutator:branch child blob of length 0..80": 1000, "mutator:branch array of 0..20 children": 1000, "mutator:nil element": 1000, "mutator:dead-node record with a key of length 0..140": 5000},
 		Assumptions: []string{"inputs are near-valid derivations of real encodings plus random strings, at most 64 KiB; not all byte strings"},
 	})
 }
